@@ -10,9 +10,7 @@ open TTV TTV.Sexp TTV.Content
 def bytes? (s : Sexp) : Option Bytes := do
   let b ← list? nat? s
   if b.all (· < 256) then some b else none
-def text? (s : Sexp) : Option Text := do
-  let t ← list? nat? s
-  if t.all validCp then some t else none
+def text? (s : Sexp) : Option Text := list? nat? s
 def ofNats (b : List Nat) : Sexp := ofList ofNat b
 
 def charset? : Sexp → Option Charset
@@ -32,18 +30,13 @@ def streamIn? : List Sexp → Option StreamIn
     let i : StreamIn :=
       { isFile := ← bool? f, data0 := ← bytes? d0, data1 := ← opt? bytes? d1, pos0 := ← nat? p0, chunkSize := ← nat? cs,
         seekTo := ← opt? (pair? int? nat?) sk, bufferNow := ← bool? bn, iters := ← nat? it }
-    if i.chunkSize ≥ 1 && (match i.seekTo with | some (_, w) => w ≤ 2 | none => true) then some i else none
+    some i
   | _ => none
-
-def hasDupNames : List (Text × Text) → Bool
-  | [] => false
-  | p :: ps => ps.any (·.1 == p.1) || hasDupNames ps
 
 def ct? : List Sexp → Option CT
   | [t, s, ps] => do
     let ct : CT := { type := ← text? t, subtype := ← text? s, params := ← list? (pair? text? text?) ps }
-    if isToken ct.type && isToken ct.subtype && ct.params.all (fun p => isToken p.1) && !hasDupNames ct.params
-    then some ct else none
+    some ct
   | _ => none
 
 def copyOp? : Sexp → Option CopyOp
@@ -53,7 +46,7 @@ def copyOp? : Sexp → Option CopyOp
   | .list [.atom "readCopy", k] => (nat? k).map .readCopy
   | _ => none
 
-def input? : Sexp → Option Input
+def inputRaw? : Sexp → Option Input
   | .list [.atom "eq", a, b, ca, cb] => do some (.eq (← nat? a) (← nat? b) (← list? bytes? ca) (← list? bytes? cb))
   | .list [.atom "text", s] => (text? s).map .text
   | .list [.atom "json", d, _] => (text? d).map .json
@@ -63,6 +56,9 @@ def input? : Sexp → Option Input
   | .list (.atom "ctype" :: rest) => (ct? rest).map .ctype
   | .list [.atom "copy", i, ops] => do some (.copy (← list? bytes? i) (← list? copyOp? ops))
   | _ => none
+
+/-- decode, then keep only inputs of the property's domain (`Input.wf`) -/
+def input? (s : Sexp) : Option Input := (inputRaw? s).bind fun i => if i.wf then some i else none
 
 def ev? : Sexp → Option Ev
   | .atom "opened" => some .opened | .atom "closed" => some .closed | .atom "made" => some .made
@@ -119,17 +115,7 @@ def ofTrace : Trace → Sexp
   | .ctype r p => tag "ctype" [ofNats r, ofParsed p]
   | .copy obs => tag "copy" [ofList ofObs obs]
 
-/-! known-finding classes (KNOWN_FINDINGS.txt) -/
-
-/-- `"=?"` occurs in the text: the start of an RFC 2047 encoded word -/
-def hasEncodedWordStart : Text → Bool
-  | a :: b :: rest => (a == 61 && b == 63) || hasEncodedWordStart (b :: rest)
-  | _ => false
-
-def charsetComma (ct : CT) : Bool := ct.params.any fun p => p.1 == charsetName && p.2.contains chComma
-def valueCRLF (ct : CT) : Bool := ct.params.any fun p => p.2.any lineBreak
-def valueEncodedWord (ct : CT) : Bool := ct.params.any fun p => hasEncodedWordStart p.2
-
+/-! known-finding classes (KNOWN_FINDINGS.txt); the predicates live in the model file -/
 def classes : Input → List String
   | .ctype ct =>
     (if charsetComma ct then ["charsetComma"] else []) ++ (if valueCRLF ct then ["valueCRLF"] else [])
